@@ -198,6 +198,14 @@ class SeqApp:
         return "SeqApp(%r,+%d)" % (self.base, len(self.items))
 
 
+class SeqCat:
+    """base[0:blen] followed by another sequence (append of a slice whose length is symbolic)"""
+    __slots__ = ("base", "blen", "other")
+
+    def __init__(self, base, blen, other):
+        self.base, self.blen, self.other = base, blen, other
+
+
 class SeqUpd:
     __slots__ = ("base", "idx", "val")
 
